@@ -79,7 +79,7 @@ func genProgressConfig(rng *vbase.Rng) (Config, map[hotstuff.ID]bool) {
 
 func c05Progress(p vbase.Params, r *vbase.Result) {
 	r.Rule = "bounded-progress restatement: a hostile prefix (async-chaos / partition-heal / twins-lockstep, <= f crashed, silent-twin or silent-scripted replicas fixed up front) followed by a SYNCHRONOUS suffix among the " +
-		"live honest quorum Q (per round: deliver every pending message between members of Q in FIFO order; if nothing was delivered every member's timer fires), following views led by members of Q " +
+		"live honest quorum Q (per round: deliver every pending message between members of Q in FIFO order; if nothing was delivered every member's timer fires; in every second suffix delays are unequal: each message takes one or two rounds, links are FIFO and interleaved in PRNG order, so votes may overtake the proposal they answer - in half of those the slow message is always the proposal's copy to the next leader; timers fire only when nothing is in flight), following views led by members of Q " +
 		"(scripted and fixed schedules for any faulty set, round-robin only with an empty one), commands always available; claim: every member of Q commits a new block before max-view(Q) grew by 4*ChainLength+2 views " +
 		"and within 60 rounds; non-trivial: members of Q were >= 2 views apart or a timeout certificate was needed at healing time; distinct: prefix trace"
 	r.Assume("liveness is decided only as bounded progress in logical rounds of the simulator; unbounded 'eventually', real-time timers and dynamic view-duration adaptation are out of reach of this technique")
@@ -215,10 +215,25 @@ func c05Progress(p vbase.Params, r *vbase.Result) {
 		}
 		rounds, ok := 0, false
 		usedViews := 0
+		// every second suffix has bounded but unequal delays (one or two rounds per message, links FIFO, links interleaved)
+		jr := vbase.NewRng(p.Seed, "C05.delays", p.Shard, p.NShards, i)
+		unequal := jr.Chance(1, 2)
+		slowProposals := unequal && jr.Chance(1, 2)
+		if unequal {
+			c.Cfg.Label += " unequal-delays"
+			r.Obs("suffixes_with_unequal_delays", 1)
+		}
+		if slowProposals {
+			r.Obs("suffixes_with_slow_proposals_to_the_next_leader", 1)
+		}
 		for rounds = 1; rounds <= R+40; rounds++ {
 			c.cmd.topUp()
 			c.Step++
-			c.lockstepRound(nil)
+			if unequal {
+				c.boundedDelayRound(jr, slowProposals)
+			} else {
+				c.lockstepRound(nil)
+			}
 			if c.Panic != nil {
 				break
 			}
@@ -270,12 +285,12 @@ func c05Progress(p vbase.Params, r *vbase.Result) {
 		if neededTC {
 			r.Obs("suffixes_needing_timeouts", 1)
 		}
-		rep := map[string]any{"engine": "vsim", "seed": p.Seed, "shard": p.Shard, "nshards": p.NShards, "case": i, "config": cfg.String(), "spread": spread, "rounds": rounds, "views_used": usedViews}
+		rep := map[string]any{"engine": "vsim", "seed": p.Seed, "shard": p.Shard, "nshards": p.NShards, "case": i, "config": cfg.String(), "spread": spread, "rounds": rounds, "views_used": usedViews, "unequal_delays": unequal, "slow_proposals": slowProposals}
 		if c.Panic == nil {
 			if !ok || usedViews > B {
 				r.Violate(vbase.Sig("no-progress", "ruleset", cfg.Ruleset, "kind", map[bool]string{true: "view-bound", false: "stall"}[ok || usedViews > B]),
 					fmt.Sprintf("after healing, a synchronous quorum of %d honest replicas (leaders in the quorum, commands available) did not all commit a new block within %d views (used %d) / %d rounds (ran %d); "+
-						"view spread at healing %d [%s]", len(Q), B, usedViews, R, rounds, spread, cfg.String()), rep)
+						"view spread at healing %d [%s unequal-delays=%v slow-proposals-to-next-leader=%v]", len(Q), B, usedViews, R, rounds, spread, cfg.String(), unequal, slowProposals), rep)
 			} else if rounds > R {
 				r.Violate(vbase.Sig("no-progress", "ruleset", cfg.Ruleset, "kind", "round-bound"),
 					fmt.Sprintf("progress resumed only after %d rounds (bound %d) [%s]", rounds, R, cfg.String()), rep)
